@@ -111,10 +111,12 @@ def field_laws(ctx):
     scal_e = np.array([1.0, 1.25, 0.75])
     scal_ep = scal_e[:, None] * np.array([1.0, 1.1])[None, :]
     n = 0
-    for cls in ("TransverselyIsotropic", "Orthotropic"):
+    for cls in ("Isotropic", "TransverselyIsotropic", "Orthotropic"):
         prm = PARAMS[cls][0]
         stiff = [k for k in prm if k[0] in "EG"]  # moduli are scaled, Poisson ratios kept: admissibility is preserved
         for fname, P in FRAMES.items():
+            if cls == "Isotropic" and fname != "identity":
+                continue  # no material axes
             for dim, ps in ((3, False), (2, True), (2, False)):
                 for shape, sc in (("Ne", scal_e), ("Ne,nPg", scal_ep)):
                     pf = {k: (float(v) * sc if k in stiff else float(v)) for k, v in prm.items()}
@@ -134,7 +136,7 @@ def field_laws(ctx):
                             Se = S[e, pg] if shape == "Ne,nPg" else S[e]
                             n += 1
                             if np.abs(Ce - Ch).max() > 1e-10 * np.abs(Ch).max() or np.abs(Se - Sh).max() > 1e-10 * np.abs(Sh).max():
-                                ctx.violation(f"field-law/{cls}/{fname}/{dim}D", f"{cls} ({shape} parameter fields, frame {fname}, {dim}D{' plane stress' if ps else ''}): the law at element {e} differs from the homogeneous law built from that element's values in the same frame (max relative {np.abs(Ce - Ch).max() / np.abs(Ch).max():.3g})", {"cls": cls, "frame": fname, "dim": dim})
+                                ctx.violation(f"field-law/{cls}/{fname}/{dim}D", f"{cls} ({shape} parameter fields, frame {fname}, {dim}D{' plane stress' if ps else ''}): the law at element {e} differs from the homogeneous law built from that element's values in the same frame (stiffness: max relative {np.abs(Ce - Ch).max() / np.abs(Ch).max():.3g}, compliance: {np.abs(Se - Sh).max() / np.abs(Sh).max():.3g})", {"cls": cls, "frame": fname, "dim": dim})
                                 break
                         else:
                             continue
